@@ -44,7 +44,20 @@ theorem xbar_mod (x : Nat) : xbar x % 2 ^ 127 = x % 2 ^ 127 := by
 theorem offcurve_rejected (klen : Nat) (ida idb : Bytes) (d r : Nat) (peer eph pa pb ra rb : Nat × Nat)
     (h : onCurve eph.1 eph.2 = false) : kex klen ida idb d r peer eph pa pb ra rb = none := by
   unfold kex
-  simp [h]
+  simp only
+  by_cases hr : (decide (eph.1 < p) && decide (eph.2 < p)) = true
+  · simp [hr, h]
+  · simp [hr]
+
+/-- … and so is a value whose coordinates are not field elements ((x + p, y) is not an alias of (x, y); as repaired) -/
+theorem nonreduced_eph_none (klen : Nat) (ida idb : Bytes) (d r : Nat) (peer eph pa pb ra rb : Nat × Nat)
+    (h : p ≤ eph.1 ∨ p ≤ eph.2) : kex klen ida idb d r peer eph pa pb ra rb = none := by
+  unfold kex
+  have : (decide (eph.1 < p) && decide (eph.2 < p)) = false := by
+    rcases h with h | h
+    · simp [Nat.not_lt.mpr h]
+    · simp [Nat.not_lt.mpr h]
+  simp [this]
 
 /-- the point at infinity (0,0) is not on the curve, so it is rejected as an ephemeral value -/
 theorem infinity_not_on_curve : onCurve 0 0 = false := by decide +kernel
@@ -54,11 +67,12 @@ theorem infinity_not_on_curve : onCurve 0 0 = false := by decide +kernel
     same key and each side's S1/S2 equal the other's. -/
 theorem outputs_from_V (klen : Nat) (ida idb : Bytes) (dA rA dB rB : Nat) (pa pb ra rb : Nat × Nat)
     (hra : onCurve ra.1 ra.2 = true) (hrb : onCurve rb.1 rb.2 = true)
+    (hra2 : ra.1 < p ∧ ra.2 < p) (hrb2 : rb.1 < p ∧ rb.2 < p)
     (hV : smul ((dA + xbar (enc (smul rA G)).1 * rA) % n) (padd (dec pb.1 pb.2) (smul (xbar rb.1) (dec rb.1 rb.2))) =
           smul ((dB + xbar (enc (smul rB G)).1 * rB) % n) (padd (dec pa.1 pa.2) (smul (xbar ra.1) (dec ra.1 ra.2)))) :
     kex klen ida idb dA rA pb rb pa pb ra rb = kex klen ida idb dB rB pa ra pa pb ra rb := by
   unfold kex
-  simp only [hra, hrb, Bool.not_true, Bool.false_eq_true, if_false]
+  simp only [hra, hrb, hra2.1, hra2.2, hrb2.1, hrb2.2, decide_true, Bool.and_self, Bool.not_true, Bool.false_eq_true, if_false]
   rw [hV]
 
 end Props.C13
